@@ -344,7 +344,7 @@ def plan(tier, seed):
     jobs = []
     G = 6
     if tier == "quick":
-        pairs = [(t, c, G, 1) for t in (0, 1, 2) for c in (0, 1, 2, 3)] + [(3, c, G, 16) for c in (0, 1, 2, 3)] + [(4, c, 5, 16) for c in (1, 2)]
+        pairs = [(t, c, G, 1) for t in (0, 1, 2) for c in (0, 1, 2, 3)] + [(3, c, G, 16) for c in (0, 1, 2, 3)] + [(4, 1, 5, 16)]
         diffs = [(n, 7, 1) for n in (0, 1, 2, 3)] + [(4, 6, 16)]
         sorts = [(1, 1), (2, 1), (3, 4), (4, 16)]
         ov = 5
